@@ -147,6 +147,7 @@ type Sim struct {
 	Deadlocked   string // non-empty: the run was abandoned because every live task was blocked
 	RaceAborted  bool   // the run was cut short because the race detector had already reported a race in it
 	raceBase     int
+	step0        int // step count when the current Run began
 	inRun        bool
 	clock
 
@@ -164,6 +165,10 @@ type Sim struct {
 }
 
 var cur *Sim
+
+// Heartbeat counts scheduler steps of all runs of this process; the worker's
+// own watchdog uses it to notice a process that hangs outside any run.
+var Heartbeat atomic.Int64
 
 // FatalHook, if set, is called before the process exits with status 2
 // because a run cannot be completed (deadlock, no termination). The worker
@@ -591,6 +596,9 @@ func (s *Sim) Run(estSteps int) {
 	if n == 0 {
 		return
 	}
+	s.finishedRun = false // Run may be called again (Setup, then the run proper)
+	s.Deadlocked = ""
+	s.step0 = s.step
 	// PCT set-up draws (before any task runs).
 	if s.Strategy == StratPCT {
 		for i := 0; i < n; i++ {
@@ -660,7 +668,7 @@ func (s *Sim) Run(estSteps int) {
 			s.Deadlocked = "run cut short after a data race report"
 			break
 		}
-		if s.step > 8*s.MaxSteps+1000 {
+		if s.step-s.step0 > 8*s.MaxSteps+1000 {
 			raceEnable()
 			fatal("INFRA: simulated run does not terminate (step cap exceeded 8x)")
 		}
@@ -669,7 +677,7 @@ func (s *Sim) Run(estSteps int) {
 		}
 		s.advance(s.now + s.ClockTick)
 		strategy := s.Strategy
-		if s.step >= s.MaxSteps {
+		if s.step-s.step0 >= s.MaxSteps {
 			strategy = StratSequential
 			s.Overrun = true
 		}
@@ -772,6 +780,7 @@ func (s *Sim) Run(estSteps int) {
 		s.step++
 		s.Counters[CtSteps]++
 		s.progress.Add(1)
+		Heartbeat.Add(1)
 		if last != nil && last != t {
 			s.Counters[CtSwitches]++
 			s.SwitchPairs[lastSite][t.parked] = true
@@ -887,6 +896,43 @@ func (s *Sim) HandoffTake() (unsafe.Pointer, int, int) {
 	s.handoff = s.handoff[:len(s.handoff)-1]
 	raceAcquire(it.p)
 	return it.p, it.a, it.b
+}
+
+// Adopt takes over the goroutines the library started under another Sim of
+// the same run (C19 executes its program twice): they are parked, and from
+// now on this Sim's scheduler resumes them. Pending timers move as well.
+func (s *Sim) Adopt(from *Sim) {
+	for _, t := range from.tasks {
+		if t.root || t.finished {
+			continue
+		}
+		t.sim = s
+		t.ID = len(s.tasks)
+		s.tasks = append(s.tasks, t)
+	}
+	for _, tm := range from.timers {
+		if !tm.dead {
+			tm.at = tm.at - from.now + s.now
+			s.timers = append(s.timers, tm)
+		}
+	}
+	from.tasks = nil
+}
+
+// Setup runs fn as a task of its own to completion before the tasks of the
+// run proper are registered. The harnesses create pools and shared buffers
+// this way, so that every library call is made by a simulated task: a
+// constructor that starts a goroutine and waits for it would otherwise park
+// the harness's main goroutine for ever.
+func (s *Sim) Setup(fn func()) {
+	strategy, innerG, stall := s.Strategy, s.InnerG, s.StallMax
+	s.Strategy, s.InnerG, s.StallMax = StratSequential, 0, 0
+	t := s.Go("setup", func(*Task) { fn() })
+	s.Run(1)
+	s.Strategy, s.InnerG, s.StallMax = strategy, innerG, stall
+	if t.PanicVal != nil {
+		panic(t.PanicVal)
+	}
 }
 
 // Steps returns the number of scheduler steps executed.
